@@ -55,9 +55,44 @@ def _pexpr(rng, pnames, depth=0):
     return "-%s" % rng.choice([q for q in pnames if q != "pq0"] or pnames)
 
 
-def gen_model(rng, name="M", size=None, want=None):
-    """Returns dict(text=, name=, features=[...]).  `want` forces features (set of strings)."""
+# Coefficients spanning many orders of magnitude (unit conversions: `max = 1e-13 * k_perm`).  Attribute values of the fresh
+# compile (the expression as written) and of a cache-served model (pymoca rebuilds affine metadata as A*p + b) must be the
+# same doubles, so these coefficients only occur in shapes whose value does not depend on the order of the operations at
+# the evaluation points (every parameter value there is a power of two, a product c*p is therefore exact):
+#   c*p, -c*p, c*p +- k, c*p +- d*q (q another independent parameter): at most ONE rounding, of a commutative addition.
+# The decimal ones multiply independent parameters only (a dependent parameter may be replaced by its defining sum);
+# the power-of-two ones (written with all their digits, `float` reads them back exactly) may also define / multiply the
+# dependent parameter: with one of them per expression all sums stay within 53 bits.
+WIDE_DEC = ["1e-13", "1e-15", "2.5e-14", "3e-13", "1e-9", "1e9", "1e13", "7e-16", "4e11"]
+WIDE_DYA = [repr(2.0 ** -40), repr(2.0 ** -30), repr(2.0 ** 30), repr(2.0 ** 40)]
+
+
+def _wexpr(rng, base, allp, single=False):
+    """Expression with one coefficient of extreme magnitude; `base`: independent real parameters, `allp`: + dependent."""
+    if single or not base:
+        return "%s*%s" % (rng.choice(WIDE_DYA), rng.choice(allp))
+    c = rng.choice(WIDE_DEC + WIDE_DYA)
+    p = rng.choice(base if c in WIDE_DEC else allp)
+    t = "%s*%s" % (c, p)
+    r = rng.random()
+    if r < 0.45:
+        return t
+    if r < 0.6:
+        return "-" + t
+    others = [q for q in base if q != p]
+    if r < 0.8 or not others or p not in base:
+        return "%s %s %s" % (t, rng.choice("+-"), _num(rng).lstrip("-"))
+    d = rng.choice([_num(rng).lstrip("-"), rng.choice(WIDE_DEC)])
+    return "%s %s %s*%s" % (t, rng.choice("+-"), d, rng.choice(others))
+
+
+def gen_model(rng, name="M", size=None, want=None, wide=0.0):
+    """Returns dict(text=, name=, features=[...]).  `want` forces features (set of strings).  `wide`: probability that a
+    parameter expression (attribute, dependent parameter, initial equation) has a coefficient of extreme magnitude
+    (0: the PRNG stream is the one of earlier versions)."""
     want = set(want or ())
+    if "wide-coefficient" in want and not wide:
+        wide = 0.5
     size = size or rng.choice([1, 2, 2, 3])
     feats = set()
     decl, eqs, ieqs = [], [], []
@@ -80,13 +115,18 @@ def gen_model(rng, name="M", size=None, want=None):
             decl.append("parameter Real %s;" % n)
             feats.add("free-parameter")
         preal.append(n)
+    pbase = list(preal)
     if rng.random() < 0.35 or "quotient" in want:
         decl.append("parameter Real pq0%s;" % rng.choice([" = 0.5", " = 2", " = 4", " = 0.25", " = -2", ""]))
         preal.append("pq0")
         feats.add("divisor-parameter")
     if rng.random() < 0.5 or "dependent-parameter" in want:
         n = "pd0"
-        decl.append("parameter Real %s = %s;" % (n, _pexpr(rng, preal)))
+        if wide and rng.random() < wide / 2:
+            decl.append("parameter Real %s = %s;" % (n, _wexpr(rng, pbase, pbase, single=True)))
+            feats.add("wide-coefficient")
+        else:
+            decl.append("parameter Real %s = %s;" % (n, _pexpr(rng, preal)))
         feats.add("dependent-parameter")
         preal_all = preal + [n]
     else:
@@ -114,13 +154,19 @@ def gen_model(rng, name="M", size=None, want=None):
         consts.append("c0")
         feats.add("constant")
 
+    def pe(depth=0):
+        if wide and rng.random() < wide:
+            feats.add("wide-coefficient")
+            return _wexpr(rng, pbase, preal_all)
+        return _pexpr(rng, preal_all, depth)
+
     def attrs(arr=0):
         """A modification with parameter-dependent / numeric attributes."""
         mods = []
         for a in ("min", "max", "nominal", "start"):
             r = rng.random()
             if r < 0.22:
-                e = _pexpr(rng, preal_all)
+                e = pe()
                 feats.add("param-attr" if any(c.isalpha() for c in e) else "const-attr")
             elif r < 0.32:
                 e = _num(rng)
@@ -134,7 +180,7 @@ def gen_model(rng, name="M", size=None, want=None):
                 else:
                     # symbolic elements compile since e418650 / a4e134c and can be cached since 00f122e (C19-F3)
                     sym = "array-symbolic" in want or rng.random() < 0.5
-                    mods.append("%s = {%s}" % (a, ", ".join(_pexpr(rng, preal_all, 1) if sym and rng.random() < 0.6 else _num(rng)
+                    mods.append("%s = {%s}" % (a, ", ".join(pe(1) if sym and rng.random() < 0.6 else _num(rng)
                                                            for _ in range(arr))))
                     if sym:
                         feats.add("array-symbolic-attr")
@@ -149,7 +195,7 @@ def gen_model(rng, name="M", size=None, want=None):
         mods = []
         for a in ("min", "max", "nominal"):
             if rng.random() < 0.4:
-                mods.append("each %s = %s" % (a, _pexpr(rng, preal_all) if rng.random() < 0.6 else _num(rng)))
+                mods.append("each %s = %s" % (a, pe() if rng.random() < 0.6 else _num(rng)))
         return "(" + ", ".join(mods) + ")" if mods else ""
 
     # the matrix variable comes first among the algebraic variables: everything after it is shifted
@@ -205,7 +251,7 @@ def gen_model(rng, name="M", size=None, want=None):
     for n in states:
         eqs.append("der(%s) = %s;" % (n, lin(pool + [n])))
         if rng.random() < 0.3:
-            ieqs.append("%s = %s;" % (n, _pexpr(rng, preal_all)))
+            ieqs.append("%s = %s;" % (n, pe()))
     for n in algs:
         eqs.append("%s = %s;" % (n, lin(pool)))
         pool.append(n)
